@@ -24,7 +24,13 @@ def main():
         print("refusing: /repo is not clean:\n" + st); return 2
     r = subprocess.run(["git", "-C", "/repo", "apply", patch], capture_output=True, text=True)
     if r.returncode != 0:
-        print("patch does not apply:", r.stderr); return 2
+        # the patch was made against an earlier HEAD (before a later `fix:` commit): merge it
+        r = subprocess.run(["git", "-C", "/repo", "apply", "--3way", patch], capture_output=True, text=True)
+        subprocess.run(["git", "-C", "/repo", "reset", "-q"], capture_output=True, text=True)
+        conflicted = subprocess.run("grep -rl '^<<<<<<< ' /repo/cadence/src /repo/cadence-macros/src", shell=True, capture_output=True, text=True).stdout.strip()
+        if r.returncode != 0 or conflicted:
+            subprocess.run(["git", "-C", "/repo", "checkout", "--", "."])
+            print("patch does not apply:", r.stderr[:300]); return 2
     results = {}
     try:
         for p in props:
